@@ -120,7 +120,7 @@ class C18(Prop):
                     "C09 generator model (EaselModel.Random.Model) - bit-identical to esl_random.c, proved and tied by C09",
                     "Lean compiler/runtime for the executable driver; gcc; binary64 arithmetic of DChoose (L0)"]
     assumptions = ["esl_rnd_Roll's rejection loop is modelled with fuel 10^6 (first accepted draw); the DP shuffle's `while (!is_eulerian)` retry loop with fuel 10^5 (roll_rejects_less_than_half / exists_accepting_rolls bound what fuel exhaustion means)",
-                   "the expected number of passes of the DP shuffle's retry loop is the product over vertices of (edges of the vertex / edges that lead towards s_f in an accepted tree): for an input made of long sorted runs it is astronomically large (measured, ASan build: 4 runs of 200 residues 7 s, scaling with the cube of the run length - 4 runs of 1250 residues, L = 5000, would take tens of minutes) - termination is outside the property; the generator keeps sorted-run inputs short (L <= 24) so that fuel 10^5 and the 8 s alarm are never reached on the clean tree",
+                   "the expected number of passes of the DP shuffle's retry loop is the product over vertices of (edges of the vertex / edges that lead towards s_f in an accepted tree): for an input made of long sorted runs it is astronomically large (measured, ASan build: 4 runs of 200 residues 7 s, scaling with the cube of the run length - 4 runs of 1250 residues, L = 5000, would take tens of minutes) - termination is outside the property; the generator keeps sorted-run inputs short (L <= 24) so that fuel 10^5 and the 15 s alarm are never reached on the clean tree",
                    "the roll range `j-i+d` of esl_rsq_{C,X}ShuffleWindows is read from the working tree on every run (WinParams.lean); d = 0 (text version of the pinned tree) is a proved non-uniform shuffle - an observation OUTSIDE the property (C18 promises the residue counts per window, which hold for d in {0,1}); it is not a violation and not a known finding",
                    "the C three-statement swap is Array.swapIfInBounds; all indices are proved in range (RegionPerm/WinPerm/RowsInv hypotheses), ASan checks the C side",
                    "allocation never fails, except ESL_ALLOC of size 0 (esl_msashuffle_{C,X}QRNA on zero-length sequences returns eslEMEM - modelled, outside 'alignments as in C03')",
